@@ -406,6 +406,68 @@ def _pratt(g, name):
     br.append(seq(tok('A'), rename('atom')) if rng.random() < 0.5 else seq(tok('A'), ELIDE))
     return alt(*br), right
 
+def _rregex(rng, depth, rules, cur, consumed):
+    """random regex that may refer to ANY rule (recursion included); `consumed` = a token was already matched in this sequence"""
+    r = rng.random()
+    if depth == 0 or r < 0.30:
+        if rng.random() < 0.35:
+            cands = [x for x in rules[1:] if consumed or x != cur]
+            if cands: return ref(rng.choice(cands))
+        return tok(rng.choice(TOKS))
+    if r < 0.62:
+        n = rng.choice([2, 2, 3]); parts = []
+        for k in range(n):
+            parts.append(_rregex(rng, depth - 1, rules, cur, consumed or any(p[0] == 'tok' for p in parts)))
+        if parts[0][0] != 'tok' and not consumed: parts.insert(0, tok(rng.choice(TOKS)))
+        return seq(*parts)
+    if r < 0.76: return alt(*[_rregex(rng, depth - 1, rules, cur, consumed) for _ in range(rng.choice([2, 2, 3]))])
+    body = _rregex(rng, depth - 1, rules, cur, consumed)
+    if body[0] in ('opt', 'star'): body = seq(tok(rng.choice(TOKS)), body)
+    q = rng.random()
+    return opt(body) if q < 0.4 else (star(body) if q < 0.8 else plus(body))
+
+def recursive_random_grammar(seed, idx):
+    """random grammars with recursion through arbitrary positions (self references after a consumed token, mutual
+    references, references inside loops/options/alternations), optional part and skip token"""
+    rng = random.Random(seed * 7331 + idx * 104729 + 3)
+    nr = rng.choice([2, 3, 3])
+    rules = [f'r{j}' for j in range(nr)]
+    body = {}
+    for r in rules:
+        body[r] = _rregex(rng, rng.choice([2, 3, 3]), rules, r, False)
+    # every non-start rule must be reachable: reference the unreferenced ones from the start rule
+    def refs(x, out):
+        if x[0] == 'ref': out.add(x[1])
+        elif x[0] in ('seq', 'alt'):
+            for y in x[1]: refs(y, out)
+        elif x[0] in ('opt', 'star', 'plus'): refs(x[1], out)
+    seen = set(); refs(body[rules[0]], seen)
+    for r in rules[1:]:
+        if r not in seen: body[rules[0]] = seq(body[rules[0]], ref(r)); refs(body[r], seen)
+    skip = rng.random() < 0.5
+    parts = [rules[-1]] if nr >= 2 and rng.random() < 0.3 else []
+    G = Grammar(TOKS + (['Ws'] if skip else []), [(r, False, body[r]) for r in rules], rules[0], skip=['Ws'] if skip else [], parts=parts,
+                name=f'rrec_{seed}_{idx}')
+    G.meta['family'] = 'random-recursive'
+    return G
+
+def recursive_template_grammar(seed, idx):
+    """constructively recursive grammars: bracketed self reference in various nested positions x atoms with nullable tails
+    x contexts of the start rule (recursion almost never survives the LL(1) check when generated blindly)"""
+    rng = random.Random(seed * 9176 + idx * 31337 + 17)
+    inner = rng.choice(['e', 'e (S e)*', '[e]', '(S e)*', 'e [S e]', '(e S)* e2', 'f', '(S f)+', 'e T* '])
+    tail = rng.choice(['', '[T]', 'T*', 'T+', '[T [T]]', '(T | X)*'])
+    second = rng.choice(['', '| X e', '| X', '| X [e]', '| X L e R'])
+    ctx = rng.choice(['s: e;', 's: (e Z)*;', 's: Z e Z;', 's: e (Z e)*;', 's: [e] Z;', 's: e Z | Z;'])
+    frule = rng.choice(['f: e;', 'f: N [T] | L e R;', 'f: e [Z f];'])
+    txt = f"token L R N S T X Z{' Ws' if rng.random() < 0.4 else ''}; start s; {ctx} e: L {inner.replace('e2', 'e')} R | N {tail} {second};"
+    if 'f' in inner.split() or '(S f)+' in inner: txt += ' ' + frule
+    if ' Ws' in txt.split(';')[0]: txt = txt.replace('start s;', 'skip Ws; start s;')
+    if rng.random() < 0.25: txt = txt.replace('start s;', 'start s; part e;')
+    g = parse_simple(txt, name=f'rtpl_{seed}_{idx}')
+    g.meta['family'] = 'recursive-template'
+    return g
+
 def random_grammar(seed, idx, rich):
     """rich: 0 = plain EBNF, 1 = + node operators / predicates / actions / return / Pratt, 2 = + ordered choice"""
     rng = random.Random(seed * 100003 + idx * 7919 + rich)
